@@ -364,7 +364,8 @@ impl WalRecord {
                 let count = u32::from_le_bytes(payload[8..12].try_into().unwrap()) as usize;
 
                 let segments_end = 12 + count * 16;
-                if payload.len() < segments_end + 8 {
+                // properties_root and stats_root (8 bytes each) follow the segments
+                if payload.len() < segments_end + 16 {
                     return Err(Error::WalProtocol("invalid ManifestSwitch payload length"));
                 }
 
